@@ -128,6 +128,17 @@ var zzIntrinsics = map[string]externalFn{
 	// engine side trusts the specification-level assertion next to them.
 	"zzTextRoundTrips": func(fr *frame, a []value) value { return true },
 	"zzAttrRoundTrips": func(fr *frame, a []value) value { return true },
+	"zzUnescape": func(fr *frame, a []value) value {
+		i := fr.i
+		return i.mkStr(i.L.unescapeRefs(i.strOf(a[0]), basicRefs))
+	},
+	"zzCollapse": func(fr *frame, a []value) value {
+		i := fr.i
+		if c, ok := a[0].(string); ok {
+			return strings.Join(strings.Fields(c), " ")
+		}
+		return i.mkStr(i.L.trimSpace(i.L.collapseSpaces(i.strOf(a[0]))))
+	},
 	"zzSquash": func(fr *frame, a []value) value {
 		i := fr.i
 		if c, ok := a[0].(string); ok {
